@@ -12,6 +12,9 @@ One check = one property:
 import fcntl, glob, hashlib, json, os, re, shutil, subprocess, sys, tempfile, time
 
 ROOT = os.path.dirname(os.path.dirname(os.path.abspath(__file__)))
+# VERIF_REPO: run the machinery against a scratch copy/worktree of the repository (mutation
+# experiments) instead of /repo.  Registered checks never set it.
+REPO = os.environ.get("VERIF_REPO", "/repo")
 COQ = os.path.join(ROOT, "coq")
 HARNESS = os.path.join(ROOT, "harness")
 GOENV = dict(os.environ, GOFLAGS="-mod=mod", GOPROXY="off", GOSUMDB="off", GOTOOLCHAIN="local",
@@ -70,7 +73,7 @@ def known_findings(pid):
 
 def go_prepare():
     """harness/go.sum must cover /repo's dependency graph."""
-    src = "/repo/go.sum"
+    src = os.path.join(REPO, "go.sum")
     dst = os.path.join(HARNESS, "go.sum")
     try:
         if not os.path.exists(dst) or open(src).read() != open(dst).read():
@@ -80,23 +83,31 @@ def go_prepare():
 
 
 def build_harness(cfg, workdir):
-    """Builds the harness binary from /repo's current working tree (tag verif). Returns (ok, path|log)."""
+    """Builds the harness binary from the repository's current working tree (tag verif). Returns (ok, path|log)."""
     go_prepare()
     kind = cfg.get("harness_kind", "run")
     exe = os.path.join(workdir, "harness_" + cfg["id"])
+    hdir = HARNESS
+    if REPO != "/repo":
+        # scratch repository: private copy of the harness module with the replace directive redirected
+        hdir = os.path.join(workdir, "harness_src")
+        shutil.copytree(HARNESS, hdir, ignore=shutil.ignore_patterns("*.test"))
+        gm = open(os.path.join(hdir, "go.mod")).read().replace("=> /repo", "=> " + REPO)
+        open(os.path.join(hdir, "go.mod"), "w").write(gm)
+        shutil.copy(os.path.join(REPO, "go.sum"), os.path.join(hdir, "go.sum"))
     with Lock("go"):
         if kind == "run":
-            rc, out, dt = sh(["go", "build", "-tags", "verif", "-o", exe, cfg["harness"]], cwd=HARNESS, env=GOENV, timeout=1800)
+            rc, out, dt = sh(["go", "build", "-tags", "verif", "-o", exe, cfg["harness"]], cwd=hdir, env=GOENV, timeout=1800)
         elif kind == "overlay-test":
-            # in-package harness: test file(s) injected into a /repo package with -overlay; compiled to a test binary
+            # in-package harness: test file(s) injected into a repository package with -overlay; compiled to a test binary
             ov = {"Replace": {}}
             for dst, src in cfg["overlay"].items():
-                ov["Replace"][os.path.join("/repo", dst)] = os.path.join(HARNESS, "overlay", src)
+                ov["Replace"][os.path.join(REPO, dst)] = os.path.join(HARNESS, "overlay", src)
             ovp = os.path.join(workdir, "overlay.json")
             with open(ovp, "w") as f:
                 json.dump(ov, f)
             rc, out, dt = sh(["go", "test", "-tags", "verif", "-vet=off", "-overlay", ovp, "-c", "-o", exe, cfg["package"]],
-                             cwd="/repo", env=GOENV, timeout=1800)
+                             cwd=REPO, env=GOENV, timeout=1800)
         else:
             return False, "unknown harness_kind " + kind
     if rc != 0:
@@ -229,6 +240,10 @@ def regenerate_facts(cfg, exe):
     rc, out, dt = sh(argv, cwd=HARNESS, env=GOENV, timeout=600)
     if rc != 0 or not os.path.exists(tmp):
         return False, out
+    if REPO != "/repo":
+        same = os.path.exists(dst) and open(dst).read() == open(tmp).read()
+        os.remove(tmp)
+        return (True, out) if same else (False, "source-derived facts differ from %s (scratch repository: not rewritten)" % fo)
     with Lock("coq"):
         if not os.path.exists(dst) or open(dst).read() != open(tmp).read():
             os.replace(tmp, dst)
